@@ -120,6 +120,7 @@ type vSched struct {
 	untilPt     int32
 	untilOcc    int
 	stallLifted bool
+	gateFetched bool // the point between epoll_wait and the handler is a schedule point (slot-level harness)
 	arrivals    map[string]int                                 // (actor, pt) -> arrivals so far
 	gateLog     [][2]interface{}                               // (actor, pt#occ) of every step taken
 	wrapHook    func(pt int32, obj unsafe.Pointer, a, b int64) // optional: installed instead of s.hook (must call it)
@@ -270,7 +271,7 @@ func (s *vSched) hook(pt int32, obj unsafe.Pointer, a, b int64) {
 			s.emit("Sendmsg", "", int(a), 0, "")
 		}
 	}
-	if !s.active || vTraceOnly(pt) {
+	if !s.active || vTraceOnly(pt) || (pt == vpPollFetched && !s.gateFetched) {
 		return
 	}
 	gid := vGID()
